@@ -63,6 +63,7 @@ type Shape struct {
 	Invert bool   `json:"invert"`
 	Re     string `json:"re"`
 	W      string `json:"w"`
+	NoOpt  bool   `json:"noopt"`
 }
 
 type MLine struct {
@@ -140,6 +141,10 @@ func send(ctx context.Context, cl v1alpha1.StateClient, s Shape) string {
 			req = &v1alpha1.DestroyRequest{}
 		}
 
+		if s.NoOpt {
+			req.Options = nil
+		}
+
 		_, err = cl.Destroy(ctx, req)
 	case "Teardown":
 		req := &v1alpha1.TeardownRequest{Namespace: "n1", Type: vh.IntType, Id: "b", Options: &v1alpha1.TeardownOptions{}}
@@ -147,11 +152,19 @@ func send(ctx context.Context, cl v1alpha1.StateClient, s Shape) string {
 			req = &v1alpha1.TeardownRequest{}
 		}
 
+		if s.NoOpt {
+			req.Options = nil
+		}
+
 		_, err = cl.Teardown(ctx, req)
 	case "TeardownAndDestroy":
 		req := &v1alpha1.TeardownAndDestroyRequest{Namespace: "n1", Type: vh.IntType, Id: "zz", Options: &v1alpha1.TeardownAndDestroyOptions{}}
 		if s.Res == "absent" {
 			req = &v1alpha1.TeardownAndDestroyRequest{}
+		}
+
+		if s.NoOpt {
+			req.Options = nil
 		}
 
 		_, err = cl.TeardownAndDestroy(ctx, req)
@@ -162,7 +175,12 @@ func send(ctx context.Context, cl v1alpha1.StateClient, s Shape) string {
 			r.Metadata.Version = map[bool]string{true: r.Metadata.Version, false: "undefined"}[s.Res == "badversion"]
 		}
 
-		_, err = cl.Create(ctx, &v1alpha1.CreateRequest{Resource: r, Options: &v1alpha1.CreateOptions{}})
+		creq := &v1alpha1.CreateRequest{Resource: r, Options: &v1alpha1.CreateOptions{}}
+		if s.NoOpt {
+			creq.Options = nil
+		}
+
+		_, err = cl.Create(ctx, creq)
 	case "Update":
 		opts := &v1alpha1.UpdateOptions{}
 
@@ -173,11 +191,21 @@ func send(ctx context.Context, cl v1alpha1.StateClient, s Shape) string {
 			opts.ExpectedPhase = new("sideways")
 		}
 
-		_, err = cl.Update(ctx, &v1alpha1.UpdateRequest{NewResource: resourceOf(s), Options: opts})
+		ureq := &v1alpha1.UpdateRequest{NewResource: resourceOf(s), Options: opts}
+		if s.NoOpt {
+			ureq.Options = nil
+		}
+
+		_, err = cl.Update(ctx, ureq)
 	case "List":
 		var stream v1alpha1.State_ListClient
 
-		stream, err = cl.List(ctx, &v1alpha1.ListRequest{Namespace: "n1", Type: vh.IntType, Options: &v1alpha1.ListOptions{LabelQuery: labelQuery(s), IdQuery: idQuery(s)}})
+		lreq := &v1alpha1.ListRequest{Namespace: "n1", Type: vh.IntType, Options: &v1alpha1.ListOptions{LabelQuery: labelQuery(s), IdQuery: idQuery(s)}}
+		if s.NoOpt {
+			lreq.Options = nil
+		}
+
+		stream, err = cl.List(ctx, lreq)
 		if err == nil {
 			for {
 				if _, err = stream.Recv(); err != nil {
@@ -221,6 +249,10 @@ func send(ctx context.Context, cl v1alpha1.StateClient, s Shape) string {
 		case "id-api0":
 			req.Id = new("a")
 			req.ApiVersion = 0
+		}
+
+		if s.NoOpt {
+			req.Options = nil
 		}
 
 		var stream v1alpha1.State_WatchClient
